@@ -356,7 +356,7 @@ def run_harness(h, tier, outdir):
                 if verdict == 'FAILED':
                     res['failures'] += [dict(desc=d, line=l, run=tag) for l, d in viol] or [dict(desc='unnamed violation', line=None, run=tag)]
                 res.setdefault('props', []).append(dict(desc='conjunction of all assertions of %s' % h.name, status=verdict))
-            res['last_out'] = r['out']
+            if tag == 'main' or not any(f.get('run') == 'main' for f in res['failures']): res['last_out'] = r['out']      # the counterexample trace of the MAIN run must not be replaced by the witness twin's
             continue
         wit = [p for p in props if p['desc'].startswith('witness')]
         oth = [p for p in props if not p['desc'].startswith('witness')]
@@ -372,7 +372,7 @@ def run_harness(h, tier, outdir):
                 res['witness_ok'] = not bad and res.get('witness_ok') is not False
                 res['witnesses'] = [dict(desc=p['desc'], reachable=(p['status'] == 'FAILURE')) for p in wit]
                 if bad: res['error'] = 'vacuous: witness not reachable: %s' % bad
-        res['last_out'] = r['out']
+        if tag == 'main' or not any(f.get('run') == 'main' for f in res['failures']): res['last_out'] = r['out']
     # expected failures (documented, e.g. a harness half that demonstrates a known finding)
     harness_faults = [f for f in res['failures'] if f['desc'].startswith(('unwinding assertion', 'no body for callee', 'harness bound', 'layout guard', 'recursion', 'model heap', 'model object table', 'model stack'))]
     if harness_faults:
